@@ -45,3 +45,54 @@ func VerifC25Request(fields [][2]string, endStream bool) (*http.Request, error) 
 	_, req, err := sc.newWriterAndRequest(st, mh)
 	return req, err
 }
+
+// VerifC25ConnResult is the outcome of one HEADERS frame of VerifC25Conn.
+type VerifC25ConnResult struct {
+	Req  *http.Request // nil unless the frame reached newWriterAndRequest and was accepted
+	Kind string        // "ok" | "stream-error" | "conn-error" | "not-read"
+}
+
+// VerifC25Conn feeds a SEQUENCE of HEADERS frames (stream ids 1,3,5,..., raw HPACK blocks as given) through ONE
+// real Framer with ONE hpack decoder, i.e. one HTTP/2 connection: the dynamic table carries over, a stream error
+// (refused request) leaves the connection open, a connection error ends it.  Every accepted frame goes
+// through the real newWriterAndRequest.  For the verification harness.
+func VerifC25Conn(blocks [][]byte, endStream []bool) []VerifC25ConnResult {
+	var wire bytes.Buffer
+	fw := NewFramer(&wire, nil)
+	out := make([]VerifC25ConnResult, len(blocks))
+	for i := range out {
+		out[i].Kind = "not-read"
+	}
+	for i, b := range blocks {
+		if err := fw.WriteHeaders(HeadersFrameParam{StreamID: uint32(2*i + 1), BlockFragment: b, EndStream: endStream[i], EndHeaders: true}); err != nil {
+			return out
+		}
+	}
+	fr := NewFramer(ioutil.Discard, &wire)
+	fr.ReadMetaHeaders = hpack.NewDecoder(initialHeaderTableSize, nil)
+	sc := &serverConn{remoteAddrStr: "10.0.0.9:1234"}
+	for i := range blocks {
+		f, err := fr.ReadFrame()
+		if err != nil {
+			if _, ok := err.(StreamError); ok {
+				out[i].Kind = "stream-error"
+				continue
+			}
+			out[i].Kind = "conn-error"
+			return out
+		}
+		mh, ok := f.(*MetaHeadersFrame)
+		if !ok {
+			out[i].Kind = "conn-error"
+			return out
+		}
+		st := &stream{id: mh.StreamID}
+		_, req, err := sc.newWriterAndRequest(st, mh)
+		if err != nil || req == nil {
+			out[i].Kind = "stream-error"
+			continue
+		}
+		out[i].Req, out[i].Kind = req, "ok"
+	}
+	return out
+}
